@@ -29,7 +29,8 @@ def _unraisable(u):
 
 sys.unraisablehook = _unraisable
 
-ARG = {"bad": tasks.BadArg, "exit": tasks.ExitAtPickle, "huge": tasks.HugeArg}
+ARG = {"bad": tasks.BadArg, "exit": tasks.ExitAtPickle, "huge": tasks.HugeArg,
+       "index": tasks.IndexErrArg, "key": tasks.KeyErrArg}
 
 
 class Record:
@@ -239,7 +240,7 @@ def do_op(ctx, op, entry):
             f = e.submit(tasks.unpicklable_result, key)
         elif kind == "bad_unpickle_result":
             f = e.submit(tasks.bad_unpickle_result, key)
-        elif kind in ("bad_arg", "exit_arg", "huge_arg"):
+        elif kind in ("bad_arg", "exit_arg", "huge_arg", "index_arg", "key_arg"):
             f = e.submit(tasks.ident, key, ARG[kind.split("_")[0]]())
         elif kind == "bad_unpickle_arg":
             f = e.submit(tasks.ident, key, tasks.FailsToUnpickle())
